@@ -23,6 +23,15 @@ def execute(plan, schedule=None, refs=None):
     return res
 
 
+RUNS_PER_UNIVERSE = C.RUNS_PER_UNIVERSE
+
+
+def prepare(verif_seed, index):
+    """Warm the universe-level caches (generated code of every chain) in the group process."""
+    useed = rngm.derive('universe', verif_seed, PROP, index // C.RUNS_PER_UNIVERSE)
+    C.gen_universe(rngm.stream(useed, 'universe'))
+
+
 def run_one(verif_seed, index, tier='quick'):
     seed = rngm.run_seed(verif_seed, PROP, index)
     useed = rngm.derive('universe', verif_seed, PROP, index // C.RUNS_PER_UNIVERSE)
